@@ -16,9 +16,15 @@ import itertools, json, re
 import checklib
 from checklib import Prop
 
-ARCHES = ["x86_64", "i386", "ppc64le"]
-TYPES = ["variant", "optional", "addon", "layered-product"]
-ID_POOL = ["A", "B", "C", "Server", "Tools", "optional", "Client", "HA", "b2"]
+ARCHES = ["x86_64", "i386", "ppc64le", "ppc64", "ppc"]      # incl. a family of names that are prefixes of each other
+NEAR_ARCHES = [" ", "s390x", "srcx", "sr"]                  # arch filters no variant carries: blank, unknown, extension/prefix of 'src'
+TYPES = ["variant", "optional", "addon", "layered-product"]  # the documented set (SPEC side; the generator reads the live table)
+# ids: case variants of one name, values that look like other types; dash-free by the id pattern
+ID_POOL = ["A", "B", "C", "Server", "Tools", "optional", "Client", "HA", "b2", "server", "a", "None", "0"]
+NAMES = ["n", "Enterprise Server", " ", "n\t", "\u00dcn\u00ef c\u00f6d\u00e9", "None", "x" * 300]
+BAD_IDS = ["a-b", "", "a b", "a.b", "\u00e9", "a_b", " ", "a ", " a", "\t", "a\u00a0b", "a:b", "a/b", "a@b", "a--b", "-a", "a-",
+           "V\u0663", "V\uff17", "a\U0001F600", "a,b", "a=b", "a%b", "a#b", "a'b", 'a"b', "a\\b", "a[b]"]
+FALSY = [None, False, 0, 0.0, "", {"$list": []}, {"$dict": []}, {"$set": []}, {"$tuple": []}]
 DASH_HEADS = ["Dx", "Dy"]          # first segments of dashed top-level UIDs that the "clean" stream never uses as ids
 ID_RE = re.compile(r"^[a-zA-Z0-9]+\Z")
 
@@ -33,10 +39,42 @@ def _mk_ci():
     return ci
 
 
-def _mk_variant(ci, a):
+def _dec(x):
+    if isinstance(x, dict):
+        if "$set" in x: return set(x["$set"])
+        if "$tuple" in x: return tuple(x["$tuple"])
+        if "$list" in x: return list(x["$list"])
+        if "$dict" in x: return dict(x["$dict"])
+    return x
+
+
+def _enc(x):
+    if isinstance(x, (set, frozenset)):
+        return sorted(x) if all(isinstance(i, str) for i in x) else {"$set": [repr(i) for i in x]}
+    if isinstance(x, tuple): return {"$tuple": list(x)}
+    if isinstance(x, list): return {"$list": x}
+    if isinstance(x, dict): return {"$dict": sorted(x.items())}
+    return x
+
+
+def _view(a):
+    """what the attributes of the object built from case entry `a` must read back as (the SPEC that was put in)"""
+    out = {"id": a["id"], "uid": a["uid"], "name": a["name"], "type": a["type"], "arches": sorted(a["arches"])}
+    for k, val in (a.get("raw") or {}).items():
+        out[k] = _enc(_dec(val))
+    return out
+
+
+def _mk_variant(ci, a, in_place=False):
     from productmd.composeinfo import Variant
     v = Variant(ci)
-    v.id = a["id"]; v.uid = a["uid"]; v.name = a["name"]; v.type = a["type"]; v.arches = set(a["arches"])
+    v.id = a["id"]; v.uid = a["uid"]; v.name = a["name"]; v.type = a["type"]
+    if in_place:
+        v.arches.update(a["arches"])          # construction style: fill the default container in place
+    else:
+        v.arches = set(a["arches"])
+    for k, val in (a.get("raw") or {}).items():
+        setattr(v, k, _dec(val))
     if a["type"] == "layered-product":
         v.release.name = "LP"; v.release.short = "lp"; v.release.version = "1"; v.release.type = "ga"
     return v
@@ -64,20 +102,31 @@ def _snap(ci, objs):
     kids = [d(o) for o in objs]
     parent = [None if o.parent is None else idx.get(id(o.parent), -2) for o in objs]
     byuid = [_res(lambda o=o: find(o)) for o in objs]
+    byuid_again = [_res(lambda o=o: find(o)) for o in objs]
     byid_bad = []
     for ci_, cont in list(enumerate(objs)):          # "from its parent by its id": top-level variants have no parent
         for k, v in cont.variants.items():
             r = _res(lambda: idx.get(id(cont[v.id]), -1))
             if r != {"ok": idx.get(id(v), -1)}:
                 byid_bad.append([ci_, k, idx.get(id(v), -1), r])
-    attrs = [{"id": o.id, "uid": o.uid, "name": o.name, "type": o.type, "arches": sorted(o.arches)} for o in objs]
-    return {"top": top, "kids": kids, "parent": parent, "byuid": byuid, "byid_bad": byid_bad, "attrs": attrs}
+    # every public read-only method between mutations: the state must be unchanged afterwards
+    for kw in ({"recursive": True}, {"arch": "src", "recursive": True}, {"types": ["variant", "addon"]}):
+        _res(lambda: ci.get_variants(**kw))
+    for o in objs[:4]:
+        _res(lambda: o.get_variants(types=["self", "optional"], recursive=True))
+        _res(lambda: (len(o), list(o), repr(o), str(o)))
+    reads_mutated = (top, kids, parent) != (d(ci.variants), [d(o) for o in objs], [None if o.parent is None else idx.get(id(o.parent), -2) for o in objs])
+    attrs = [{"id": _enc(o.id), "uid": _enc(o.uid), "name": _enc(o.name), "type": _enc(o.type), "arches": _enc(o.arches)} for o in objs]
+    return {"top": top, "kids": kids, "parent": parent, "byuid": byuid, "byid_bad": byid_bad, "attrs": attrs,
+            "lookup_not_repeatable": byuid != byuid_again, "reads_mutated": reads_mutated}
 
 
 def _queries(rng_key, n_objs, placed, with_self=True):
     """all arch filters x all type subsets x recursive on the top-level container; a sample on variants (incl. 'self')"""
     qs = []
     archs = [None, ""] + ARCHES + ["src"]
+    import random
+    rnd = random.Random(rng_key)
     subsets = []
     for r in range(len(TYPES) + 1):
         for comb in itertools.combinations(TYPES, r):
@@ -86,8 +135,12 @@ def _queries(rng_key, n_objs, placed, with_self=True):
         for t in subsets:
             for rec in (False, True):
                 qs.append({"q": "gv", "c": None, "arch": a, "types": t, "rec": rec})
-    import random
-    rnd = random.Random(rng_key)
+    # arch filters no variant has (blank, unknown, extension / proper prefix of the literal 'src'); odd type lists
+    for a in NEAR_ARCHES:
+        for t in [[]] + rnd.sample(subsets, 2):
+            qs.append({"q": "gv", "c": None, "arch": a, "types": t, "rec": rnd.random() < 0.5})
+    for t in (["bogus"], [""], ["variant", "variant"], ["selfx", "addon"], ["sel"], ["Variant"], ["optional", "bogus"]):
+        qs.append({"q": "gv", "c": None, "arch": rnd.choice([None, "x86_64"]), "types": t, "rec": rnd.random() < 0.5})
     if with_self:
         qs.append({"q": "gv", "c": None, "arch": None, "types": ["self"], "rec": False})
         qs.append({"q": "gv", "c": None, "arch": None, "types": ["self", "variant"], "rec": True})
@@ -98,6 +151,8 @@ def _queries(rng_key, n_objs, placed, with_self=True):
                 t = t + ["self"]
                 rnd.shuffle(t)
             qs.append({"q": "gv", "c": c, "arch": rnd.choice(archs), "types": t, "rec": rnd.random() < 0.6})
+    for q in rnd.sample(qs, min(12, len(qs))):
+        q["twice"] = True
     return qs
 
 
@@ -105,7 +160,19 @@ def _run_query(ci, objs, q):
     idx = dict((id(o), i) for i, o in enumerate(objs))
     cont = ci if q["c"] is None else objs[q["c"]]
     if q["q"] == "gv":
-        return _res(lambda: [idx.get(id(v), -1) for v in cont.get_variants(arch=q["arch"], types=q["types"] or None, recursive=q["rec"])])
+        def call():
+            types = list(q["types"]) if q["types"] else None
+            r1 = cont.get_variants(arch=q["arch"], types=types, recursive=q["rec"])
+            if q.get("twice"):
+                # the same read-only call twice, after mutating the previous RESULT and with the caller's list checked
+                first = list(r1)
+                del r1[:]
+                r2 = cont.get_variants(arch=q["arch"], types=types, recursive=q["rec"])
+                if [id(x) for x in r2] != [id(x) for x in first] or (types is not None and types != q["types"]):
+                    raise AssertionError("not repeatable")
+                r1 = r2
+            return [idx.get(id(v), -1) for v in r1]
+        return _res(call)
     return _res(lambda: idx.get(id(cont[q["name"]]), -1))
 
 
@@ -151,23 +218,40 @@ def _reload_history(ci2):
 def execute(case):
     a = case["args"]
     ci = _mk_ci()
-    objs = [_mk_variant(ci, x) for x in a["variants"]]
-    steps = []
-    for op in a["ops"]:
-        cont = ci.variants if op["c"] is None else objs[op["c"]]
-        v = objs[op["v"]]
+    objs = [_mk_variant(ci, x, in_place=(i % 2 == 1)) for i, x in enumerate(a["variants"])]
+    twin = None
+    if a.get("twin"):
+        # two forests built interleaved in one process from the same history must stay identical
+        ci_b = _mk_ci()
+        twin = (ci_b, [_mk_variant(ci_b, x, in_place=(i % 2 == 0)) for i, x in enumerate(a["variants"])])
+
+    def do_add(ci_, objs_, op):
+        cont = ci_.variants if op["c"] is None else objs_[op["c"]]
+        v = objs_[op["v"]]
         try:
             if op.get("key") is not None and op["c"] is None:
                 cont.add(v, op["key"])
             else:
                 cont.add(v)
-            out = "ok"
+            return "ok"
         except RecursionError:
-            out = "RuntimeError"
+            return "RuntimeError"
         except Exception as e:  # noqa
-            out = type(e).__name__
+            return type(e).__name__
+    steps = []
+    for op in a["ops"]:
+        out = do_add(ci, objs, op)
         st = _snap(ci, objs)
         st["out"] = out
+        if twin is not None:
+            out_b = do_add(twin[0], twin[1], op)
+            sb = _snap(twin[0], twin[1])
+            st["twin_differs"] = (out_b, sb["top"], sb["kids"], sb["parent"]) != (out, st["top"], st["kids"], st["parent"])
+        if a.get("dump_each"):
+            # dumps at every point of a history: whether it succeeds or not, it must not change the forest
+            _res(lambda: ci.dumps())
+            sd = _snap(ci, objs)
+            st["dump_mutated"] = any(sd[k] != st[k] for k in ("top", "kids", "parent", "attrs"))
         steps.append(st)
     final = steps[-1] if steps else _snap(ci, objs)
     placed = _placed(final)
@@ -190,10 +274,33 @@ def execute(case):
                 reload = {"load_err": type(e).__name__}
             else:
                 objs2, ops2 = _reload_history(ci2)
+                snap_loaded = _snap(ci2, objs2)
+                # load -> modify: a valid child and a duplicate id on the LOADED forest (then the invariants, the queries and a second cycle)
+                extra, expect = [], []
+                spec2 = [dict(x) for x in snap_loaded["attrs"]]
+                tops = [v for _, v in snap_loaded["top"]]
+                if tops and a.get("post_reload", True):
+                    t = tops[0]
+                    if "-" not in spec2[t]["uid"]:
+                        spec2.append({"id": "Zz9", "uid": spec2[t]["uid"] + "-Zz9", "name": "after load", "type": "addon", "arches": spec2[t]["arches"][:1]})
+                        extra.append({"c": t, "v": len(spec2) - 1, "key": None}); expect.append(True)
+                    spec2.append({"id": spec2[t]["id"], "uid": spec2[t]["uid"], "name": "dup", "type": "variant", "arches": spec2[t]["arches"]})
+                    extra.append({"c": None, "v": len(spec2) - 1, "key": None}); expect.append(False)
+                    for x in spec2[len(objs2):]:
+                        objs2.append(_mk_variant(ci2, x))
+                outs2 = ["ok"] * len(ops2) + [do_add(ci2, objs2, op) for op in extra]
                 snap2 = _snap(ci2, objs2)
                 qs2 = _queries(checklib.key_of(a["ops"]) + "r", len(objs2), _placed(snap2), a.get("self_queries", True))
-                reload = {"variants": snap2["attrs"], "ops": ops2, "snap": snap2, "queries": qs2,
+                reload = {"variants": spec2, "ops": ops2 + extra, "outs": outs2, "expect_extra": expect, "n_loaded": len(ops2),
+                          "snap_loaded": snap_loaded, "snap": snap2, "queries": qs2,
                           "qres": [_run_query(ci2, objs2, q) for q in qs2]}
+                # second write/read cycle of the modified forest
+                try:
+                    ci3 = ComposeInfo(); ci3.loads(ci2.dumps())
+                    o3, _ = _reload_history(ci3)
+                    reload["second_cycle"] = {"snap": _snap(ci3, o3)}
+                except Exception as e:  # noqa
+                    reload["second_cycle"] = {"err": type(e).__name__}
     return {"steps": steps, "queries": qs, "qres": qres, "reload": reload}
 
 
@@ -378,13 +485,25 @@ def oracle_run(case, out):
         av = attrs[v]
         def sfail(kind, observed, required, facts, t=t):
             return fail(kind, observed, required, facts, step=t)
-        if st["attrs"] != attrs:
-            sfail("attrs-changed", st["attrs"], attrs, {})
+        if st["attrs"] != [_view(x) for x in attrs]:
+            sfail("attrs-changed", st["attrs"], [_view(x) for x in attrs], {})
+        for flag, kind_, req in (("reads_mutated", "read-mutated-state", "read-only calls (__getitem__, get_variants, len, iter) leave the forest unchanged"),
+                                 ("lookup_not_repeatable", "lookup-not-repeatable", "the same lookup twice gives the same variant"),
+                                 ("twin_differs", "twin-forests-differ", "two forests built interleaved from one history are identical"),
+                                 ("dump_mutated", "dumps-mutated-state", "dumps() leaves the forest unchanged")):
+            if st.get(flag):
+                sfail(kind_, flag, req, {})
         k = key or av["id"]
         lvl = prev["top"] if c is None else prev["kids"][c]
         pos_before = [[p, kk] for p, kk, w in _edges(prev) if w == v]
         existing = dict(lvl).get(k)
         causes = []
+        if av.get("raw"):
+            # a field holds a falsy value of another type: not a variant the forest may contain
+            causes.append("bad-field-type")
+            av = dict(_view(av)); av["uid"] = str(av["uid"]); av["id"] = str(av["id"])
+            av["arches"] = av["arches"] if isinstance(av["arches"], list) else []
+            av["raw"] = True
         if existing is not None and existing != v:
             causes.append("duplicate-id")
         if c is not None and not set(av["arches"]) <= set(attrs[c]["arches"]):
@@ -393,11 +512,11 @@ def oracle_run(case, out):
             causes.append("misaligned-uid")
         if c is not None and v in _ancestors_struct(prev, c):
             causes.append("own-ancestor")
-        if not ID_RE.match(av["id"]):
+        if not av.get("raw") and not ID_RE.match(av["id"]):
             causes.append("bad-id")
         if not av["arches"] or av["type"] not in TYPES or not av["name"]:
             causes.append("bad-field")
-        facts = {"causes": causes, "container": None if c is None else attrs[c]["uid"], "variant": av["uid"], "key": key,
+        facts = {"causes": causes, "container": None if c is None else attrs[c]["uid"], "variant": av["uid"], "key": key, "variant_id": av["id"],
                  "variant_parent_set_before": prev["parent"][v] is not None, "variant_placed_before": bool(pos_before),
                  "placed_elsewhere_before": [q for q, kk in pos_before if q != c]}
         accepted = st["out"] == "ok"
@@ -428,11 +547,13 @@ def oracle_run(case, out):
     # write/read cycle
     rl = out.get("reload")
     if rl is not None and out["steps"]:
-        clean_before = not fails
+        # the forest "satisfies the invariants" when no step- or state-level check failed (query-level findings such as F28 do not count)
+        clean_before = not any(not f["kind"].startswith("gv-") for f in fails)
         if "dump_err" in rl or "load_err" in rl:
             if clean_before:
+                top_ids = [attrs[v]["id"] for _, v in final["top"]]
                 fail("reload-failed", rl, "a forest satisfying the invariants can be written and read back",
-                     {"invariants_held_before": clean_before}, step="reload")
+                     {"invariants_held_before": clean_before, "top_ids_collide": len(set(top_ids)) != len(top_ids)}, step="reload")
         else:
             a2 = rl["variants"]
             h2 = {}
@@ -442,12 +563,24 @@ def oracle_run(case, out):
 
             def shape(at, snap):
                 reach = set(_placed(snap))         # the forest = what hangs below the top-level container
-                return sorted(set(json.dumps([None if p is None else at[p]["uid"], at[v]["id"], at[v]["uid"], at[v]["type"], at[v]["arches"]])
+                return sorted(set(json.dumps([None if p is None else at[p]["uid"], at[v]["id"], at[v]["uid"], at[v]["name"], at[v]["type"], at[v]["arches"]])
                                   for p, k, v in _edges(snap) if p is None or p in reach))
             s1 = shape(attrs, final)
-            s2 = shape(a2, rl["snap"])
+            s2 = shape(a2, rl["snap_loaded"])
             if clean_before and s1 != s2:
                 fail("reload-shape", s2, s1, {"invariants_held_before": clean_before}, step="reload")
+            # load -> modify: the valid child is accepted, the duplicate refused; then a second cycle returns the modified forest
+            for op, o_, want in zip(rl["ops"][rl["n_loaded"]:], rl["outs"][rl["n_loaded"]:], rl["expect_extra"]):
+                if want and o_ != "ok":
+                    fail("reload:refused-valid", o_, "a valid add on the loaded forest is accepted", {"op": op, "variant": a2[op["v"]]["uid"]}, step="reload")
+                if not want and o_ == "ok":
+                    fail("reload:accepted-invalid", "add accepted", "refused (duplicate-id)", {"op": op, "causes": ["duplicate-id"], "variant": a2[op["v"]]["uid"]}, step="reload")
+            sc = rl.get("second_cycle")
+            if sc is not None and clean_before and not any(f["kind"].startswith("reload:") for f in fails):
+                if "err" in sc:
+                    fail("reload2-failed", sc, "load -> add -> dumps -> loads works", {}, step="reload")
+                elif shape(sc["snap"]["attrs"], sc["snap"]) != shape(a2, rl["snap"]):
+                    fail("reload2-shape", shape(sc["snap"]["attrs"], sc["snap"]), shape(a2, rl["snap"]), {}, step="reload")
     return fails
 
 
@@ -464,13 +597,24 @@ def _explained(f):
     if k == "inv-key" and facts.get("key_given"): return True
     if k == "gv-arch" and facts.get("is_receiver_via_self"): return True                                        # F28
     if k == "gv-error" and facts.get("types_has_self") and facts.get("container_is_top"): return True
+    if k == "reload-failed" and facts.get("top_ids_collide"): return True                                       # F35
+    if k == "accepted-invalid" and facts.get("causes") == ["bad-id"] and str(facts.get("variant_id", "")).endswith("\n") \
+            and ID_RE.match(str(facts.get("variant_id"))[:-1] or "-"): return True                                # F15
     return False
 
 
 # ------------------------------------------------------------------------------------------------ generator
 class Gen(object):
-    def __init__(self, rng, tier, nasty):
-        self.rng, self.tier, self.nasty = rng, tier, nasty
+    def __init__(self, rng, tier, nasty, untyped=False):
+        self.rng, self.tier, self.nasty, self.untyped = rng, tier, nasty, untyped
+        checklib.use_repo()
+        from productmd.composeinfo import VARIANT_TYPES as live
+        # valid types come from the LIVE table (every entry round-robin, the last one included); the oracle judges them by the
+        # documented set TYPES, so a table that gained or lost an entry shows.  Near misses: extension and proper prefix of
+        # every live entry, other spellings, the pseudo-type.
+        self.live_types = list(live)
+        self.near_types = sorted(set([t + "x" for t in live] + [t[:-1] for t in live] + [t.upper() for t in live] +
+                                     ["self", "Variant", "", "layered", "layered-product ", " addon", "bogus"]) - set(live) - set(TYPES))
         self.variants, self.ops = [], []
         self.kids = {None: {}}       # intended children: container -> {key: obj}
         self.par = {}                # intended position of placed objects: obj -> container
@@ -479,10 +623,14 @@ class Gen(object):
         self.n = 0
         self.tyi = rng.randrange(len(TYPES))
 
-    def new(self, id_, uid, arches, typ=None, name="n"):
+    def new(self, id_, uid, arches, typ=None, name=None, raw=None):
         if typ is None:
-            typ = TYPES[self.tyi % len(TYPES)]; self.tyi += 1
+            typ = self.live_types[self.tyi % len(self.live_types)]; self.tyi += 1
+        if name is None:
+            name = NAMES[0] if self.rng.random() < 0.5 else self.rng.choice(NAMES)
         self.variants.append({"id": id_, "uid": uid, "name": name, "type": typ, "arches": sorted(arches)})
+        if raw:
+            self.variants[-1]["raw"] = raw
         i = len(self.variants) - 1
         self.kids[i] = {}
         return i
@@ -513,6 +661,8 @@ class Gen(object):
         if cands and r.random() < 0.85:
             return r.choice(cands)
         self.n += 1
+        if r.random() < 0.06:
+            return "L" * 300 + "%d" % self.n         # a very long (legal) id
         return "V%d" % self.n
 
     def containers(self, want_variant=False):
@@ -548,7 +698,9 @@ class Gen(object):
         r = self.rng
         kinds = ["valid"] * 7 + ["dashtop", "keyed", "bottomup", "dupid", "foreign", "misuid", "badid", "badfield", "fresh-wrongparent"]
         if self.nasty:
-            kinds += ["ancestor", "placed", "placed-top", "readd", "retry", "dashcollide", "sameid", "junkkey", "dashparent", "twin"] * 1
+            kinds += ["ancestor", "placed", "placed-top", "readd", "retry", "dashcollide", "sameid", "junkkey", "dashparent", "twin", "nlid", "normkey"] * 1
+        if self.untyped:
+            kinds += ["falsy"] * 4
         kind = r.choice(kinds)
         placed_vars = list(self.par)
         if kind == "valid":
@@ -625,7 +777,7 @@ class Gen(object):
             return self.emit(c, v, kind)
         if kind == "badid":
             c = r.choice(self.containers())
-            id_ = r.choice(["a-b", "", "a b", "a.b", "é", "a_b"])
+            id_ = r.choice(BAD_IDS)
             v = self.new(id_, self.uid_of(c, id_), self.sub_arches(c))
             return self.emit(c, v, kind)
         if kind == "badfield":
@@ -633,8 +785,35 @@ class Gen(object):
             id_ = self.fresh_id(c)
             which = r.randrange(3)
             v = self.new(id_, self.uid_of(c, id_), [] if which == 0 else self.sub_arches(c),
-                         typ="bogus" if which == 1 else None, name="" if which == 2 else "n")
+                         typ=r.choice(self.near_types) if which == 1 else None, name="" if which == 2 else "n")
             return self.emit(c, v, kind)
+        if kind == "falsy":
+            # a falsy value of another type in one field (oracle-only cases: the model's attributes are typed strings)
+            c = r.choice(self.containers())
+            id_ = self.fresh_id(c)
+            fld = r.choice(["id", "uid", "name", "type", "arches"])
+            val = r.choice([x for x in FALSY if not (fld != "arches" and x == "")] if fld != "arches" else FALSY)
+            v = self.new(id_, self.uid_of(c, id_), self.sub_arches(c), raw={fld: val})
+            return self.emit(c, v, kind)
+        if kind == "nlid":
+            # F15: `$` of the id pattern also matches before a final line feed
+            c = r.choice(self.containers())
+            id_ = self.fresh_id(c) + "\n"
+            v = self.new(id_, self.uid_of(c, id_), self.sub_arches(c))
+            return self.emit(c, v, kind, expect_ok=True)
+        if kind == "normkey":
+            # two top-level keys that normalise to one id: 'A-B' (dashed UID, filed under its UID) next to id 'AB' (F35)
+            head, tail = r.choice(["Nk", "Nm"]), r.choice(["x", "optional"])
+            if head + tail in self.kids[None] or head + "-" + tail in self.kids[None]:
+                return
+            t1 = self.new(head + tail, head + "-" + tail, self.sub_arches(None), typ=r.choice(["optional", "variant"]))
+            t2 = self.new(head + tail, head + tail, self.sub_arches(None))
+            order = [(t1, head + "-" + tail), (t2, None)]
+            if r.random() < 0.5:
+                order.reverse()
+            for t, k in order:
+                self.emit(None, t, kind, key=k, expect_ok=True)
+            return
         # ---- the nasty stream: re-use of objects, collisions (known findings live here)
         if kind == "ancestor":
             cs = [c for c in placed_vars]
@@ -729,15 +908,22 @@ class Gen(object):
             guard += 1
             self.step()
         # the pseudo-type 'self' (known finding F21 on every forest) is queried in the nasty stream and in one clean case out of ten
-        return {"op": "c11", "args": {"variants": self.variants, "ops": self.ops,
-                                      "self_queries": bool(self.nasty or self.rng.random() < (0.1 if self.tier == "quick" else 0.004))}}
+        args = {"variants": self.variants, "ops": self.ops,
+                "self_queries": bool(self.nasty or self.rng.random() < (0.1 if self.tier == "quick" else 0.004))}
+        if self.rng.random() < 0.12:
+            args["twin"] = True
+        if self.rng.random() < 0.15:
+            args["dump_each"] = True
+        if any("raw" in x for x in self.variants):
+            args["untyped"] = True
+        return {"op": "c11", "args": args}
 
 
 # ------------------------------------------------------------------------------------------------ the Prop
 class C11(Prop):
     id = "C11"
     lean_module = "ProductMD.Properties.C11"
-    quick_budget = 1500
+    quick_budget = 1200
     thorough_budget = 10000
     rule = ("histories of 2-14 add calls (valid, duplicate id, foreign arch, misaligned UID, bad id/field, own ancestor, already-placed, "
             "re-add, retry of a refused object, dashed top-level UIDs, explicit keys) on forests of <= 8 placed variants, depth <= 3; after EVERY "
@@ -763,15 +949,15 @@ class C11(Prop):
     def cases(self, rng, tier, budget):
         if tier == "quick":
             for i in range(budget):
-                yield Gen(rng, tier, (i % 5) >= 3).case()
+                yield Gen(rng, tier, (i % 5) >= 3, untyped=(i % 12 == 5)).case()
             return
         # larger tiers: the clean stream first.  checklib stops consuming after a 2000-case chunk that produced more than 50
         # oracle failures, and the nasty stream produces the known findings by the hundred.
         n_clean = budget * 3 // 5
         for i in range(n_clean):
-            yield Gen(rng, tier, False).case()
+            yield Gen(rng, tier, False, untyped=(i % 12 == 5)).case()
         for i in range(budget - n_clean):
-            yield Gen(rng, tier, True).case()
+            yield Gen(rng, tier, True, untyped=(i % 12 == 5)).case()
 
     def __init__(self):
         self._cache = {}
@@ -783,6 +969,9 @@ class C11(Prop):
 
     def model_requests(self, case):
         a = case["args"]
+        if a.get("untyped"):
+            self._cache.pop(checklib.key_of(case), None)
+            return []                 # a field holds a non-string: outside the typed model; real side + oracle only
         out = self._cache.pop(checklib.key_of(case), None) or execute(case)
         reqs = [{"op": "c11_history", "args": {"variants": a["variants"], "ops": [{"c": o["c"], "v": o["v"], "key": o.get("key")} for o in a["ops"]],
                                                "queries": out["queries"], "fuel": 900}}]
@@ -804,7 +993,7 @@ class C11(Prop):
         rl = real_out.get("reload")
         if rl and "ops" in rl and len(model_out) > 1:
             ms = model_out[1]["steps"]
-            r["reload"] = {"outs": ["ok"] * len(rl["ops"]), "final": self._proj_steps([dict(rl["snap"], out="ok")])[0] if rl["ops"] else None, "qres": rl["qres"]}
+            r["reload"] = {"outs": rl["outs"], "final": self._proj_steps([dict(rl["snap"], out=rl["outs"][-1])])[0] if rl["ops"] else None, "qres": rl["qres"]}
             m["reload"] = {"outs": [s["out"] for s in ms], "final": self._proj_steps(ms[-1:])[0] if ms else None, "qres": model_out[1]["queries"]}
         if r != m:
             # keep the report small: first differing component
@@ -826,7 +1015,9 @@ class C11(Prop):
         if not fails:
             return None
         unexplained = [f for f in fails if not _explained(f)]
-        f = (unexplained or fails)[0]
+        # among explained failures report the rarer ones first (the F28 'self' queries fail on every forest of the nasty stream)
+        order = sorted(fails, key=lambda f_: (f_["kind"] != "reload-failed", f_["kind"].startswith("gv-")))
+        f = (unexplained or order)[0]
         return {"observed": f["observed"], "required": f["required"], "kind": f["kind"]}
 
     def nontrivial(self, case, real_out):
